@@ -48,6 +48,8 @@ def p_C06(res, facts, tier):
     res.floor('frame_instances', n, 30)
     midi.check_edges_and_held(res, facts, 'C06')
     midi.check_parser(res, facts)
+    # unsupported controller numbers are 'unsupported messages': they change nothing (shared with C18)
+    midi.check_routing(res, facts, only_other=True)
 
 
 def p_C18(res, facts, tier):
@@ -124,6 +126,8 @@ def p_C08(res, facts, tier):
     from .rules import quant
     quant.check_search(res, facts, 'C08')
     quant.check_convert(res, facts, 'C08')
+    # 'a quantizer with no prior conversion': configuring the scale must not perform or fake a conversion
+    quant.check_scale_edits_keep_cache(res, facts)
 
 
 def p_C09(res, facts, tier):
